@@ -3,6 +3,7 @@ import XPathV.Lemmas.Pull2Proofs
 import XPathV.Model.Api
 import XPathV.Lemmas.Facts
 import XPathV.Generated.ExtraFacts
+import XPathV.Lemmas.Pull2Gen
 /-!
 # C04 — a compiled expression is a pure function of (document, context node)
 
@@ -76,5 +77,23 @@ when it runs (an exemption of a type that keeps state — `transformFunctionQuer
 evaluations share that state) -/
 theorem function_arguments_cloned_per_call :
     Generated.functionArgsExempt = ["functionQuery"] ∧ Generated.functionArgsClonesOtherwise = true := by decide
+
+/-! ## the machine-level statement for filters with predicates of any value kind (`Lemmas/Pull2Gen`)
+
+`DecOK'`: the oracle `dec` only has to be the keep-decision the sequence model makes for the candidates the machine
+can present (boolean, string and node-list valued predicates without restriction; a number-valued predicate when its
+verdict is a function of the node among the candidates offered — `DecOK → DecOK'`). -/
+section AnyPredicate
+open XPathV.Model
+/-- **`Clone` on all sixteen iterator types (`Model/Pull2`)**, filters with predicates of any value
+kind: whatever state the shared query tree is in, its clone is in reset state, satisfies the machine
+invariant, and its stream is the whole sequence of the plan. -/
+theorem clone_is_fresh_all_iterators' {F : Type} [NumAlg F] (d : Doc) (cfg : ECfg) (dec : Plan → Ref → Bool)
+    (q : PQ2) (c : Ref) (hdec : q.DecOK' (F := F) d cfg dec c) :
+    q.clone.evaluate = q.clone ∧ q.clone.Inv d ∧
+      sel (F := F) d cfg q.plan c = .ok (rem2 d cfg dec c q.clone) :=
+  clone_fresh2' d cfg dec q c hdec
+
+end AnyPredicate
 
 end XPathV.Theorems.C04
